@@ -105,6 +105,7 @@ func Send[T any](ch chan<- T, v T) {
 	if s.dead {
 		runtime.Goexit()
 	}
+	Yield(-5)
 	c := s.vc(ch)
 	s.park(&pendingOp{ready: c.canSend, desc: fmt.Sprintf("send %T", ch)})
 	c.doSend(v)
@@ -126,6 +127,7 @@ func Recv2[T any](ch <-chan T) (T, bool) {
 	if s.dead {
 		runtime.Goexit()
 	}
+	Yield(-5) // between whatever was checked before and becoming a registered receiver
 	c := s.vc(ch)
 	if c != nil {
 		c.recvWaiting++
@@ -260,6 +262,7 @@ func Select(hasDefault bool, cases ...Case) int {
 		}
 		return r
 	}
+	Yield(-5)
 	if hasDefault {
 		r := readyIdx()
 		if len(r) == 0 {
